@@ -258,7 +258,7 @@ def common_suffix(a, b):
     return k
 
 
-def oracle(ctx, kind, case, out):
+def _oracle(ctx, kind, case, out):
     F = []
 
     kind = kind[:-2] if kind.endswith("-o") else kind
@@ -427,3 +427,7 @@ def widen(ctx, disagreements):
     finally:
         wctx.cleanup()
     return found
+
+
+# failing cases are shrunk before they are reported (see namelib.with_shrinking)
+oracle = nl.with_shrinking("pC06", _oracle)
